@@ -105,6 +105,22 @@ func (x XattrMeta) ListAttributes(bucket, object string) ([]string, error) {
 	return attributes, nil
 }
 
+// ListAttributesFile lists all attributes of the open file f.
+func (x XattrMeta) ListAttributesFile(f *os.File) ([]string, error) {
+	attrs, err := xattr.FList(f)
+	if err != nil {
+		return nil, err
+	}
+	attributes := make([]string, 0, len(attrs))
+	for _, attr := range attrs {
+		if !isUserAttr(attr) {
+			continue
+		}
+		attributes = append(attributes, strings.TrimPrefix(attr, xattrPrefix))
+	}
+	return attributes, nil
+}
+
 func isUserAttr(attr string) bool {
 	return strings.HasPrefix(attr, xattrPrefix)
 }
